@@ -438,14 +438,14 @@ def minimize(
         DEFAULT_OPTIONS[Options.STORE_HISTORY],
     )
     store_history = bool(store_history)
-    if Options.HISTORY_SIZE in options and options[Options.HISTORY_SIZE] <= 0:
+    if Options.HISTORY_SIZE in options and options[Options.HISTORY_SIZE] < 1:
         raise ValueError("The size of the history must be positive.")
     history_size = options.get(
         Options.HISTORY_SIZE,
         DEFAULT_OPTIONS[Options.HISTORY_SIZE],
     )
     history_size = int(history_size)
-    if Options.FILTER_SIZE in options and options[Options.FILTER_SIZE] <= 0:
+    if Options.FILTER_SIZE in options and options[Options.FILTER_SIZE] < 1:
         raise ValueError("The size of the filter must be positive.")
     filter_size = options.get(
         Options.FILTER_SIZE,
@@ -1008,7 +1008,7 @@ def _set_default_options(options, n):
         options[Options.RHOEND.value] = DEFAULT_OPTIONS[Options.RHOEND]
     options[Options.RHOBEG.value] = float(options[Options.RHOBEG])
     options[Options.RHOEND.value] = float(options[Options.RHOEND])
-    if Options.NPT in options and options[Options.NPT] <= 0:
+    if Options.NPT in options and options[Options.NPT] < 1:
         raise ValueError("The number of interpolation points must be "
                          "positive.")
     if (
@@ -1025,7 +1025,7 @@ def _set_default_options(options, n):
         raise ValueError(
             f"The number of interpolation points must be at least {n + 1}."
         )
-    if Options.MAX_EVAL in options and options[Options.MAX_EVAL] <= 0:
+    if Options.MAX_EVAL in options and options[Options.MAX_EVAL] < 1:
         raise ValueError(
             "The maximum number of function evaluations must be positive."
         )
@@ -1039,7 +1039,7 @@ def _set_default_options(options, n):
         ),
     )
     options[Options.MAX_EVAL.value] = int(options[Options.MAX_EVAL])
-    if Options.MAX_ITER in options and options[Options.MAX_ITER] <= 0:
+    if Options.MAX_ITER in options and options[Options.MAX_ITER] < 1:
         raise ValueError("The maximum number of iterations must be positive.")
     options.setdefault(
         Options.MAX_ITER.value,
